@@ -11,7 +11,7 @@ namespace sim
       {
          std::string oracle;
          unsigned reruns = 0;
-         unsigned budget = 3000;
+         unsigned budget = 3000;  // in-process; forked candidates cost ~1-10 ms each
 
          bool fails( const Job& x )
          {
@@ -21,6 +21,12 @@ namespace sim
             ++reruns;
             if( !well_formed( x.c.g, x.c.shape ) ) {
                return false;
+            }
+            if( is_fatal_oracle( oracle ) ) {
+               // the violation ends the process: every candidate runs in a forked child
+               const int c = judge_forked( x, oracle );
+               const bool poison = oracle.compare( oracle.size() - 7, 7, ".poison" ) == 0;
+               return poison ? ( c == 77 ) : ( c == 99 );
             }
             const Verdict v = judge( x );
             if( v.discarded ) {
